@@ -1970,6 +1970,7 @@ pub const IFACE_EDITS: &[&str] = &[
     "add-field",
     "add-variant",
     "reorder-variants",
+    "reorder-fields",
     "add-trait-method",
     "add-impl",
     "add-trait",
@@ -2287,6 +2288,24 @@ impl Project {
                         }
                     }
                 });
+                true
+            }
+            "reorder-fields" => {
+                // the same fields in another order: positions in dependents' code change
+                let ss: Vec<usize> = self.pkgs[p]
+                    .items
+                    .iter()
+                    .enumerate()
+                    .filter(|(_, it)| matches!(&it.kind, ItemKind::Struct { fields, .. } if fields.len() >= 2))
+                    .map(|(i, _)| i)
+                    .collect();
+                if ss.is_empty() {
+                    return false;
+                }
+                let i = ss[d.below(ss.len())];
+                let ItemKind::Struct { fields, .. } = &mut self.pkgs[p].items[i].kind else { return false };
+                let a = d.below(fields.len() - 1);
+                fields.swap(a, a + 1);
                 true
             }
             "add-variant" | "reorder-variants" => {
